@@ -453,8 +453,28 @@ def _rule_who_completes(ctx: Ctx, r: 'BatcherRoles', rule: str) -> None:
                               'the batcher cancels a task / future itself: a cancelled batch task skips the `except Exception` fan-out, so the callers '
                               'of whatever batch that task was working on wait for ever', construct=construct_key(m.qualname, 'cancels', norm(x.func.value)))
     if r.ret:
+        call_side = {r.call.name}
+        grew = True
+        while grew:
+            grew = False
+            for nm in list(call_side):
+                m0 = byname.get(nm)
+                if m0 is None:
+                    continue
+                for x in ast.walk(m0.node):
+                    # helpers __call__ runs, and bound methods it hands to call_later
+                    if isinstance(x, ast.Attribute) and isinstance(x.value, ast.Name) and x.value.id == 'self' and x.attr in byname and x.attr not in call_side:
+                        call_side.add(x.attr)
+                        grew = True
         for m in meths:
-            if m is r.call or m is r.init:
+            if m is r.init:
+                continue
+            if m.name in call_side:
+                for x in ast.walk(m.node):
+                    if isinstance(x, ast.Attribute) and isinstance(x.ctx, (ast.Store, ast.Del)) and self_attr(x) == r.ret:
+                        ctx.violation(rule, f'{m.qualname}: {norm(x)} is re-bound', f'{FILE}:{x.lineno}',
+                                      'the retention cache object is replaced while eviction timers hold the old object\'s bound `pop`',
+                                      construct=construct_key(m.qualname, 'retention cache re-bound'))
                 continue
             for x in ast.walk(m.node):
                 hit = None
@@ -463,6 +483,9 @@ def _rule_who_completes(ctx: Ctx, r: 'BatcherRoles', rule: str) -> None:
                     hit = x
                 elif isinstance(x, ast.Subscript) and isinstance(x.ctx, (ast.Store, ast.Del)) and self_attr(x.value) == r.ret:
                     hit = x
+                elif isinstance(x, ast.Attribute) and isinstance(x.ctx, (ast.Store, ast.Del)) and self_attr(x) == r.ret:
+                    hit = x         # the attribute itself is re-bound (`self._cache = dict(self._cache)`): pending call_later(…, cache.pop, key)
+                    #                 timers keep the bound method of the old dict, their keys are never evicted from the new one
                 if hit is not None:
                     ctx.violation(rule, f'{m.qualname}: {norm(hit)[:60]} changes the retention cache', f'{FILE}:{hit.lineno}',
                                   'an entry is added or removed outside __call__: removal by key can take away the future a later caller has just '
